@@ -1,5 +1,5 @@
 (* C20 driver: reads a case file (argv[1]): dump blocks "T ... E" (harness/hwv_dump.h)
-   and lines "calc <escaped argv tokens after the topology options>".  For every calc line the
+   and lines "calc <escaped argv tokens after the topology options> [%< <escaped stdin text>]".  For every calc line the
    extracted model of hwloc-calc (Text/Calc.v: calc_main) runs on the last dump and one line is printed:
      rc=<0|1> out=<escaped stdout>  |  ABORT  |  HUGE  |  OOB  |  UNMODELLED <n>
    Escaping: bytes outside 33..126 and '%' as %xx; the empty string as "%". *)
@@ -34,11 +34,25 @@ let () =
     (fun l ->
       if Stdlib.String.length l >= 4 && Stdlib.String.sub l 0 4 = "calc" then begin
         let toks = Stdlib.List.filter (fun x -> x <> "") (split_on ' ' (Stdlib.String.sub l 4 (Stdlib.String.length l - 4))) in
+        (* optional "%< <escaped stdin text>": the lines hwloc-calc reads when no location is on the command line *)
+        let rec split_at acc = function
+          | [] -> (Stdlib.List.rev acc, None)
+          | "%<" :: [x] -> (Stdlib.List.rev acc, Some (unesc x))
+          | "%<" :: _ -> (Stdlib.List.rev acc, Some "")
+          | x :: tl -> split_at (x :: acc) tl in
+        let (toks, stdin_text) = split_at [] toks in
+        let raw_bytes s = Stdlib.List.init (Stdlib.String.length s) (fun i -> n_of_int (Stdlib.Char.code s.[i])) in
+        let lines = match stdin_text with
+          | None -> []
+          | Some t ->
+            let ls = split_on '\n' t in
+            let ls = (match Stdlib.List.rev ls with "" :: r -> Stdlib.List.rev r | _ -> ls) in
+            Stdlib.List.map raw_bytes ls in
         let args = Stdlib.List.map (fun t -> bytes_of (unesc t)) toks in
         (match !cur with
          | None -> print_endline "NODUMP"
          | Some d ->
-           (match (try Some (calc_main d limit args) with Stdlib.Stack_overflow | Stdlib.Out_of_memory -> None) with
+           (match (try Some (calc_main_stdin d limit args lines) with Stdlib.Stack_overflow | Stdlib.Out_of_memory -> None) with
             | None -> print_endline "UNMODELLED 9"       (* unary fuel of a size proportional to a bit index in the millions *)
             | Some r -> match r with
             | Oob -> print_endline "OOB"
